@@ -95,7 +95,7 @@ fn main() {
     let mut rng = Rng::new(a.seed);
     let mut run = Run::new(&a.out);
     quiet_panics();
-    let n_hist: usize = if a.thorough() { 400_000 } else { 30_000 };
+    let n_hist: usize = if a.thorough() { 600_000 } else { 80_000 };
     let deals = make_deals(&mut rng, 64);
     run.rule = format!(
         "{n_hist} random histories of the real Game (5 play styles x legal() ∪ every raise size) over {} forced deals (crafted seat0-wins/seat1-wins/tie + random), state compared after every action, settlements at the end of every hand; a case = one visited betting state, non-trivial always (blinds are in), distinct by (pot, seats, ticker, street)",
